@@ -67,14 +67,16 @@ def one_run(cfg, seed, policy, script=(), census=False, p_switch=0.3):
     bad = res["bad"]
     if not ok:
         res["inconclusive"] = "wall-clock watchdog"
-    if sched.deadlock:
+    if not ok:
+        pass
+    elif sched.deadlock:
         bad.append(("deadlock", "senders deadlocked: %r" % (sched.deadlock,)))
     elif sched.aborting:
         bad.append(("livelock", "run aborted: %s" % sched.abort_reason))
     for t in sched.tasks:
         if t.exc is not None:
             bad.append(("sender-raised/%s" % type(t.exc).__name__, "a sender raised %r" % (t.exc,)))
-    if not sched.aborting:
+    if not sched.aborting and ok:
         fp = rc.FrameParser()
         fp.feed(net.raw("A->B"))
         got = []
